@@ -38,7 +38,7 @@ MAX_FILL_BEHAVIOURS = 300  # behaviours replayed on the pre-filled real port ran
 def base(**kw):
     c = dict(Hosts={1, 2}, EphLo=49152, EphHi=49154, Fams={4}, Protos={"udp", "tcp"}, BindHosts={1},
              BindAddrs={"wild", "lo", "a1", "a2", "b1"}, BindPorts={5000, 0}, PeerAddrs=set(),
-             ConnHosts=set(), ConnAddrs=set(), ConnPorts=set(), MaxSocks=3, MaxOps=4, NoWrap=False,
+             ConnHosts=set(), ConnAddrs=set(), ConnPorts=set(), StallHosts=set(), MaxSocks=3, MaxOps=4, NoWrap=False,
              ProbeActs=False, FillFrom=0, SwAddrs={"lo", "a1", "a2", "b1", "x", "wild"},
              SwPorts={5000, 49152, 49153})
     c.update(kw)
@@ -90,8 +90,8 @@ def mc_configs(tier):
         ("mc_demux", "Spec",
          base(BindHosts={1, 2}, BindAddrs={"wild", "lo", "a1", "a2"}, BindPorts={5000},
               PeerAddrs={"a1", "b1"}, ConnHosts={1, 2}, ConnAddrs={"lo", "a1", "a2", "x", "wild"},
-              ConnPorts={5000}, MaxSocks=4, MaxOps=4 if q else 5, SwPorts={5000}),
-         plain + ["CloseConnMC", "ConnectUdpMC", "ConnectMC"]),
+              ConnPorts={5000}, StallHosts={2}, MaxSocks=4, MaxOps=4 if q else 5, SwPorts={5000}),
+         plain + ["CloseConnMC", "ConnectUdpMC", "ConnectMC", "StallMC"]),
         # the two IP families are disjoint name spaces
         ("mc_fam", "Spec",
          base(Fams={4, 6}, Protos={"udp"}, BindAddrs={"wild", "a1"}, PeerAddrs={"a1"},
@@ -111,9 +111,11 @@ def mc_configs(tier):
 # a listener is closed while a connection it accepted stays open: the child (bound to the concrete address it was
 # accepted on) is the only live socket left on the port - re-binds of that port (same address / wildcard / the other
 # own address) and port-0 binds (the listener sat on the first ephemeral port, the cursor still points at it) must
-# see it.  4 operations: bind, connect, close listener, bind.
+# see it.  4 operations: bind, connect, close listener, bind.  Same shape with a handshake that stalls until the
+# server side gives up (every SYN-ACK lost): the half-open child must be gone, so after the listener is closed the
+# port can be bound again, and a later SYN from the same client tuple reaches the listener again.
 GEN_CHILD = ("gen_child", base(NoWrap=True, Protos={"tcp"}, BindAddrs={"wild", "a1", "a2"}, BindPorts={49152, 0},
-                               ConnHosts={2}, ConnAddrs={"a1"}, ConnPorts=set(), MaxSocks=4, MaxOps=4,
+                               ConnHosts={2}, ConnAddrs={"a1"}, ConnPorts=set(), StallHosts={2}, MaxSocks=4, MaxOps=4,
                                SwAddrs={"a1", "a2"}, SwPorts={49152}))
 
 
@@ -232,6 +234,8 @@ def trace_stats(path):
             k = e["ev"]
             if k.startswith("probe") or k == "data":
                 k += ":observed" if e["obs"] else ":" + e.get("reply", "nobody")
+            elif k == "stall":
+                k += ":" + e["reply"]
             elif k in ("bind", "connect"):
                 k += ":" + e["res"] + (":port0" if e.get("port") == 0 else "")
             st[k] = st.get(k, 0) + 1
@@ -383,7 +387,7 @@ def run_(pid, tier, seed, replay=None):
     ck.extra["random_trace_event_classes"] = stats_all
     # vacuity of the random direction: every outcome class must have been recorded
     need = ["bind:Ok", "bind:Ok:port0", "bind:AddrInUse", "bind:AddrNotAvailable", "rebind_after_listener_close",
-            "probe_to_unspecified", "connect:Ok", "connect:Refused",
+            "probe_to_unspecified", "stall:synack", "connect:Ok", "connect:Refused",
             "connect:NoReply", "probe_udp:observed", "probe_udp:nobody", "probe_syn:observed", "probe_syn:rst",
             "probe_syn:none", "data:observed", "close", "connect_udp"]
     missing = [k for k in need if stats_all.get(k, 0) == 0]
